@@ -2,14 +2,16 @@ ID = "C15"
 PROPS_FILE = "props/C15.v"
 COQ_TARGETS = ["props/C15.vo", "judge/J15.vo", "model/Pack.vo"]
 JUDGE = ("judge.J15", "J15.judge_i")
-JUDGE_IMPORTS = ("From NSQV Require Import model.Names model.Lookupd model.LookupProto judge.J14.",)
+JUDGE_IMPORTS = ("From NSQV Require Import model.Names model.Lookupd model.LookupProto model.LookupNames judge.J14.",)
 JUDGE_SCOPE = "N_scope"
 REPO_BINS = [("nsqlookupd", "apps/nsqlookupd", "")]
 RULE = ("sessions against a real nsqlookupd SUBPROCESS (binary built from the repository) with a well-behaved bystander producer that stays connected and, in "
         "~60% of the sessions, a second well-behaved producer (the visitor) that is connected and registered (also on the bystander's topic) while the hostile "
         "streams arrive, re-registers, unregisters, leaves and comes back: "
         "each session = 10-24 actions, ~52% hostile TCP streams (each followed by EOF), ~38% HTTP requests, the rest bystander / visitor commands. "
-        "Streams: wrong / short protocol magic; random bytes; IDENTIFY bodies that are complete but carry a member colliding with the identity the daemon keeps "
+        "Streams: wrong protocol magic (12 fixed ones - other versions, HTTP / TLS openers, NULs, newlines - and random ones, alone or followed by PING, an HTTP "
+        "request, the right magic, a complete IDENTIFY + REGISTER on the bystander's topic, random bytes; all of them also in one fixed session with bystander and "
+        "visitor registered) / short magic (0-3 bytes); random bytes; IDENTIFY bodies that are complete but carry a member colliding with the identity the daemon keeps "
         "for a connection (14 keys: remote_address in 5 spellings - encoding/json matches case-insensitively -, id/ID/Id/peer_id, lastUpdate in 3 spellings, "
         "hostname, topology_zone; placed first, last or twice) whose value is the LIVE registry id (socket address, substituted at run time) of the bystander, "
         "of the visitor, of the sending connection itself, of a connection already closed, empty, or a foreign string, optionally with the bystander's node "
@@ -17,7 +19,8 @@ RULE = ("sessions against a real nsqlookupd SUBPROCESS (binary built from the re
         "key x {bystander, visitor} matrix in two fixed sessions and the visitor's own IDENTIFY carrying such members); a mostly-valid prefix (IDENTIFY, REGISTER/UNREGISTER also on the bystander's topic, PING with "
         "ASCII and Unicode white space) followed by one malformed command labelled with the answer it must provoke: unknown commands, REGISTER/UNREGISTER "
         "without parameters / before IDENTIFY / with invalid topic or channel names (bad characters, 65 bytes, bare '#ephemeral', NUL, non-breaking space, "
-        "empty), repeated IDENTIFY, IDENTIFY with size 0, negative sizes (0xFFFFFFFF, 0x80000000, ...), 1 MiB announced and a truncated body, body one to five "
+        "empty, and in 40% the boundary names: 65/66/74/75/128/200 plain bytes, 65/66/70/73/74/75/76/138 bytes ending in '#ephemeral' - the suffix counts towards the "
+        "64 -, the suffix twice / in capitals / cut / followed by a byte, '#' first or last), valid prefixes that use the longest valid names (63/64 plain, 63/64 with suffix), repeated IDENTIFY, IDENTIFY with size 0, negative sizes (0xFFFFFFFF, 0x80000000, ...), 1 MiB announced and a truncated body, body one to five "
         "bytes short, size shorter than the JSON, missing size bytes, 12 kinds of malformed JSON, 8 kinds of missing fields; optionally followed by further "
         "commands that must be ignored and by a last line without newline. HTTP: 27 paths (all routes but the 30 s CPU profile, unknown paths, trailing-slash "
         "and case variants) x 7 methods x topic in {absent, empty, bystander's, new, invalid, wildcard, 65 bytes, ephemeral} x channel (7 values) x node (4 values), "
@@ -25,10 +28,15 @@ RULE = ("sessions against a real nsqlookupd SUBPROCESS (binary built from the re
         "point by the bystander, the visitor or a hostile connection; thorough: the systematic matrix of 1700 requests), plus three fixed sessions with the matrix "
         "(five admin requests) x (topic registered by both connections / by the visitor / key created over HTTP without producers / absent) x (channel registered / "
         "shared #ephemeral / key without producers / absent) x (node of the bystander / of the visitor / foreign / empty / wrong port / wrong case), the connections "
-        "registering again after every deletion. After EVERY action: /ping "
-        "liveness + process state, the raw frames / status code, /lookup of the bystander's topic, /topics, /channels?topic=*, /debug with the "
+        "registering again after every deletion; four fixed sessions with the matrix (30 boundary names: 1/2/63/64/65/66/74/75/128/200 plain bytes, "
+        "11/12/63/64/65/66/70/73/74/75/76/138 bytes with the suffix, 8 misplaced-suffix forms) x (as topic / as channel) x (REGISTER / UNREGISTER on a fresh identified "
+        "connection, POST on each admin route that takes the name), labelled OK / E_BAD_TOPIC / E_BAD_CHANNEL / 200 / 400 by an independent statement of the name rule, "
+        "the well-behaved connections then registering the longest valid names themselves. After EVERY action: /ping + process state before and after the views are taken "
+        "(a daemon that dies or stops answering at ANY point - also between two views - makes the action 'not alive', with the exit status and the panic message "
+        "in the case's observation; never a harness error), the raw frames / status code, /lookup of the bystander's topic, /topics, /channels?topic=*, /debug with the "
         "broadcast_address:http_port of every entry (the views after a "
-        "visitor command are taken while that connection is still open). Monitor: a hostile connection that has come and gone leaves EVERY producer entry of "
+        "visitor command are taken while that connection is still open). Monitor: the daemon is alive after every action; every name the views list (/topics, /channels, channels of /lookup, keys of /debug) passes the name rule as "
+        "the judge computes it (Names.is_valid_name), and an admin request answered 200 named a valid topic (and channel); a hostile connection that has come and gone leaves EVERY producer entry of "
         "/debug and the /lookup producers exactly as they were; a well-behaved command changes nothing that is not its own connection's; an HTTP request that is "
         "not answered 200 or is not a POST on one of the five admin routes changes no view at all; create (whatever it names) leaves every producer entry, "
         "tombstone flag, node and /lookup producer as it was and adds at most the named keys; delete removes entries of the named topic / channel key only and "
@@ -56,7 +64,9 @@ LEVEL_TEXT = ("Machine-checked proof (Coq 8.16.1) over a byte-level executable m
               "request not answered 200 changes nothing and only POST on the five admin routes can change the registry; a create request leaves /debug, every node, "
               "registration, tombstone mark and /lookup listing as it was and removes no key (also when the named key exists and has producers), a delete request adds "
               "and alters nothing and touches only keys of the named topic / the named channel key, a tombstone request keeps every key and entry and marks only "
-              "producers of the named topic whose broadcast_address:http_port is the named node. The dispatch table, route table, handler "
+              "producers of the named topic whose broadcast_address:http_port is the named node; the registry never holds an invalid name (invariant kept by every command, "
+              "byte stream and request; the views of such a state list valid names only; 400 for an invalid topic / channel on every admin route). The shape of tcp.go Handle "
+              "(short read and the clause for any other magic END the function before the nil prot is used), the dispatch table, route table, handler "
               "guard/call summaries (incl. the position of the size refusal before make), the writes of peerInfo in IDENTIFY (the id comes from the socket, before json.Unmarshal, "
               "and is never written again) and the identity argument of every registry call of the handlers are regenerated from the source on every run and proved equal to the model's. "
               "Tied to the code by differential correspondence on a real nsqlookupd subprocess with a bystander producer.")
